@@ -74,7 +74,7 @@ type Informers struct {
 
 var _ controllercontext.Informers = (*Informers)(nil)
 
-func (i *Informers) Start(ctx context.Context) error               { return nil }
+func (i *Informers) Start(ctx context.Context) error                { return nil }
 func (i *Informers) Kubernetes() k8sinformers.SharedInformerFactory { return i.kube }
 func (i *Informers) Furiko() furikoinformers.SharedInformerFactory  { return i.furiko }
 
@@ -110,11 +110,14 @@ func NewContext() *Context {
 	}
 }
 
-func (c *Context) Start(ctx context.Context) error            { return nil }
-func (c *Context) Clientsets() controllercontext.Clientsets   { return c.clientsets }
-func (c *Context) MockClientsets() *mock.Clientsets           { return c.clientsets }
-func (c *Context) Configs() controllercontext.Configs         { return c.configs }
-func (c *Context) MockConfigs() *mock.Configs                 { return c.configs }
-func (c *Context) Informers() controllercontext.Informers     { return c.informers }
-func (c *Context) Sim() *Informers                            { return c.informers }
-func (c *Context) Stores() controllercontext.Stores           { return c.stores }
+func (c *Context) Start(ctx context.Context) error          { return nil }
+func (c *Context) Clientsets() controllercontext.Clientsets { return c.clientsets }
+func (c *Context) MockClientsets() *mock.Clientsets         { return c.clientsets }
+func (c *Context) Configs() controllercontext.Configs       { return c.configs }
+func (c *Context) MockConfigs() *mock.Configs               { return c.configs }
+func (c *Context) Informers() controllercontext.Informers   { return c.informers }
+func (c *Context) Sim() *Informers                          { return c.informers }
+func (c *Context) Stores() controllercontext.Stores         { return c.stores }
+
+// ResetStores drops the registered stores (controller process restart).
+func (c *Context) ResetStores() { c.stores = controllercontext.NewContextStores() }
